@@ -30,6 +30,8 @@ def body_factory(tier, seed):
                                                            "observation": obs, "info": info})
             return
         GD.run_cases(rep, cases, PROP, PROP, ORACLE, async_modes=modes, view=VIEW, kinds=KINDS)
+        # the same unhandled CALL again and again on one endpoint (a peer that retries with the same id): the same answer each time
+        GD.run_repeats(rep, cases, PROP, ("unhandled", "id-unhandled", "after-only"), limit=80)
         for c in (cases[25], cases[len(cases) // 2], cases[-1]):
             rep.sample({"stratum": c[0], "version": c[1], "frame": str(c[3])[:200]})
     return body
@@ -44,6 +46,8 @@ def run(rep, tier, seed):
 
 
 def replay(d):
+    if d.get("kind") == "repeat":
+        return GD.replay_repeat(d)
     from harness import impl_dispatch as D
     raw = d["frame"] if isinstance(d["frame"], str) else bytes.fromhex(d["frame"]["hex"])
     routes = d["routes"]
